@@ -18,7 +18,8 @@ KeyType(k) == IF k \in {"rsaA", "rsaB"} THEN "rsa" ELSE "ec"
 \* "p256Aneg" is the key n-d of p256A: same curve, same X coordinate, Y negated - as close as two different keys get
 NearMiss(a, b) == {a, b} = {"p256A", "p256Aneg"}
 
-VARIABLES cfg,      \* [priv, x509For, order, blobFor, pgpFor, path, prior]   ("none" = not configured)
+VARIABLES cfg,      \* [priv, x509For, order, blobFor, pgpFor, pgpRing, path, prior]   ("none" = not configured)
+                    \* pgpRing: the PGP certificate file holds a second certificate, of a key unrelated to everything here
                     \* prior = "rightful": earlier in the same process the certificate source was loaded successfully for its own key
           pc,       \* "cfg" -> "loaded" | "error" -> "emitted"
           leaf,     \* key identity the loader takes as the leaf certificate's subject key ("none")
@@ -30,7 +31,8 @@ vars == <<cfg, pc, leaf, chain, sigBy, emitted>>
 
 Init ==
   /\ cfg \in [priv : Keys, x509For : Keys \cup {"none"}, order : Orders, blobFor : Keys \cup {"none"},
-              pgpFor : Keys \cup {"none"}, path : Paths, prior : {"none", "rightful"}]
+              pgpFor : Keys \cup {"none"}, pgpRing : BOOLEAN, path : Paths, prior : {"none", "rightful"}]
+  /\ cfg.pgpRing => cfg.path \in PgpPaths
   /\ cfg.prior = "rightful" => (cfg.x509For # "none" /\ cfg.path \notin PgpPaths)
   /\ cfg.x509For = "none" => cfg.order = "leafOnly"
   /\ ~(cfg.x509For # "none" /\ cfg.blobFor # "none")          \* a file takes precedence; model one source at a time
@@ -86,9 +88,11 @@ MismatchIsError == (pc \in {"error", "emitted"} /\ Mismatch) => pc = "error"
 
 \* matching, leaf-first configurations are served
 MatchServed ==
-  (pc \in {"error", "emitted"} /\ ~Mismatch /\ cfg.order \in {"leafOnly", "leafFirst"}) => pc = "emitted"
+  (pc \in {"error", "emitted"} /\ ~Mismatch /\ ~cfg.pgpRing /\ cfg.order \in {"leafOnly", "leafFirst"}) => pc = "emitted"
 
 \* expectation class for the replay: "error" | "emit" | "either"
+\* (a file with several PGP certificates may be refused outright, or used for the certificate of the key - never for another)
 Expect == IF Mismatch THEN "error"
+          ELSE IF cfg.pgpRing THEN "either"
           ELSE IF cfg.order \in {"leafOnly", "leafFirst"} THEN "emit" ELSE "either"
 =============================================================================
